@@ -41,7 +41,7 @@ META = dict(
                  "generated scripts are well-sorted SMT-LIB with all declarations first"],
     rule="lib/scriptgen_cores.py: contradiction kits (implication chains, case splits, pigeonhole 3/2, difference cycles, bounds, sums, "
          "disjunctive arithmetic, congruence chains and diamonds) + redundant consequences + duplicates + noise, spread over 2-12 named and "
-         "unnamed assertions, QF_UF / QF_LRA / QF_LIA / propositional, single-query and push/pop histories, :minimal-unsat-cores on, "
+         "unnamed assertions, QF_UF / QF_LRA / QF_LIA / propositional, single-query and push/pop histories incl. directed ones (several names per term, re-assertion after pop, assertions after an unsat answer), :minimal-unsat-cores on, "
          ":print-cores-full on in ~30 %, option toggles in mid-script; case = one (get-unsat-core) answer after unsat with minimisation on; "
          "non-trivial = the minimisation had >= 2 targets or the core >= 2 elements; distinct = (script, query index)",
 )
